@@ -29,6 +29,9 @@ def plan(tier):
     for sh in ((), ("named",), ("named+desc",), ("anonymous",), ("disabled",), ("other-comments",), ("named+desc", "anonymous", "disabled"),
                ("anonymous", "named", "anonymous"), ("other-comments", "named+desc"), ("disabled", "disabled", "named+desc")):
         pl.units.append(U("L.loader.%s" % ("-".join(sh) or "empty"), "contracts.factorygen", "h_loader", (sh,), native_ok=True, sample_models=True))
+    for as_list in (False, True):
+        pl.units.append(U("L.loader.requires.%s" % ("list" if as_list else "single"), "contracts.factorygen", "h_loader_requires", (as_list,),
+                          native_ok=True, sample_models=True))
     pl.units += [u for u in common.pushdown_units() if u.uid.startswith("PD.up.")]
 
     def lf(u, label):
